@@ -96,6 +96,7 @@ def run_property(prop, tier, seed, replay=None):
     findings = core.load_known_findings(prop.id)
     open_findings = [f for f in findings if f.get("status") == "open"]
     model_runs = prop.models if harness_ok else []
+    pending_oracle, pending_corr = [], []
     for mr in model_runs:
         rng = core.Rng(seed)
         if replay:
@@ -143,21 +144,26 @@ def run_property(prop, tier, seed, replay=None):
                 if hit:
                     kf_hits[hit["id"]] = kf_hits.get(hit["id"], 0) + 1
                     continue
-                small = core.shrink(mr.model, c, lambda j: not j[1], mr.impl_env, mr.spec_needs_impl) if mr.shrinkable else c
-                r2, _ = core.run_cases(mr.model, [small], mr.impl_env, mr.spec_needs_impl)
-                p = core.write_replay(prop.id, seed, "oracle", small, r2[0],
-                                      "the implementation's answers violate the property's spec oracle")
-                violations.append((p, ""))
+                pending_oracle.append((mr, c))
             else:
                 disagreements += 1
-                small = core.shrink(mr.model, c, lambda j: not j[0], mr.impl_env, mr.spec_needs_impl) if mr.shrinkable else c
-                r2, _ = core.run_cases(mr.model, [small], mr.impl_env, mr.spec_needs_impl)
-                p = core.write_replay(prop.id, seed, "corr", small, r2[0],
-                                      f"correspondence:{mr.model} – model and implementation disagree; "
-                                      "the spec oracle accepts the implementation's answers on this case")
-                corr_broken.append((mr, p))
-            if len(violations) + len(corr_broken) >= 5:
-                break
+                pending_corr.append((mr, c))
+
+        # every case has been judged; minimise and report a few of each kind (oracle rejections first)
+        for mr_, c in pending_oracle[:4]:
+            small = core.shrink(mr_.model, c, lambda j: not j[1], mr_.impl_env, mr_.spec_needs_impl) if mr_.shrinkable else c
+            r2, _ = core.run_cases(mr_.model, [small], mr_.impl_env, mr_.spec_needs_impl)
+            p = core.write_replay(prop.id, seed, "oracle", small, r2[0],
+                                  "the implementation's answers violate the property's spec oracle")
+            violations.append((p, ""))
+        for mr_, c in pending_corr[: (2 if pending_oracle else 4)]:
+            small = core.shrink(mr_.model, c, lambda j: not j[0], mr_.impl_env, mr_.spec_needs_impl) if mr_.shrinkable else c
+            r2, _ = core.run_cases(mr_.model, [small], mr_.impl_env, mr_.spec_needs_impl)
+            p = core.write_replay(prop.id, seed, "corr", small, r2[0],
+                                  f"correspondence:{mr_.model} – model and implementation disagree; "
+                                  "the spec oracle accepts the implementation's answers on this case")
+            corr_broken.append((mr_, p))
+        pending_oracle, pending_corr = [], []
 
         # ---- known findings: replay the witnesses of open entries
         for f in open_findings:
